@@ -1,1 +1,562 @@
-//! (stub) filled in by its owner
+//! C17: the real `MetaTable<dyn Obj>` / `World` driven call by call.
+//!
+//! Implementing types of different sizes and alignments report, THROUGH THE
+//! TRAIT OBJECT, their type tag, their own address and their value; every
+//! type has its own `bump`.  Each model type `t` exists in two flavours:
+//! `G<t>` with a correct `CastFrom` and `B<t>` whose `CastFrom` moves the
+//! address (16 bytes into the object, so that a library that forgot to check
+//! would still only touch memory of the object itself).
+//!
+//! `Machine` executes one call at a time and returns the observation as a
+//! JSON event (the format `spec/MetaTrace.tla` reads).  Addresses are
+//! renumbered densely.  Borrow states are probed through
+//! `try_fetch_internal` on the only thread there is (S3).
+
+use std::{
+    collections::{BTreeMap, HashMap},
+    panic::{catch_unwind, AssertUnwindSafe},
+};
+
+use serde_json::{json, Value};
+use shred::{
+    cell::{AtomicRef, AtomicRefMut},
+    CastFrom, Fetch, FetchMut, MetaIter, MetaIterMut, MetaTable, Resource, ResourceId, World,
+};
+
+pub const MAXT: usize = 8;
+pub const MODV: u32 = 1009;
+
+pub trait Obj {
+    fn tag(&self) -> u32;
+    fn addr(&self) -> usize;
+    fn val(&self) -> u32;
+    fn bump(&mut self) -> u32;
+}
+
+pub trait Mk: Obj + Resource + Sized {
+    fn mk(v: u32) -> Self;
+}
+
+macro_rules! objty {
+    ($name:ident, $tag:expr, $pre:ty, $post:ty, $good:expr) => {
+        pub struct $name {
+            pub pre: $pre,
+            pub v: u32,
+            pub post: $post,
+        }
+        impl Obj for $name {
+            fn tag(&self) -> u32 {
+                $tag
+            }
+            fn addr(&self) -> usize {
+                self as *const Self as usize
+            }
+            fn val(&self) -> u32 {
+                self.v
+            }
+            fn bump(&mut self) -> u32 {
+                self.v = (3 * self.v + $tag) % MODV;
+                self.v
+            }
+        }
+        impl Mk for $name {
+            fn mk(v: u32) -> Self {
+                $name { pre: Default::default(), v, post: Default::default() }
+            }
+        }
+        unsafe impl CastFrom<$name> for dyn Obj {
+            fn cast(t: *mut $name) -> *mut Self {
+                if $good {
+                    t
+                } else {
+                    // deliberately wrong: a different address (inside the object)
+                    (t as *mut u8).wrapping_add(16) as *mut $name
+                }
+            }
+        }
+    };
+}
+
+#[derive(Default)]
+#[repr(align(16))]
+pub struct A16(pub [u8; 16]);
+#[derive(Default)]
+#[repr(align(32))]
+pub struct A32(pub [u8; 32]);
+
+// good flavours: sizes 4 .. 200 bytes, alignments 4 .. 32
+objty!(G1, 1, (), (), true);
+objty!(G2, 2, [u8; 3], u8, true);
+objty!(G3, 3, [u64; 4], (), true);
+objty!(G4, 4, u16, [u32; 9], true);
+objty!(G5, 5, A16, u64, true);
+objty!(G6, 6, [u64; 12], [u64; 12], true);
+objty!(G7, 7, A32, (), true);
+objty!(G8, 8, (u8, u64), [u16; 5], true);
+// bad flavours: at least 48 bytes in front of and 32 bytes behind the value
+objty!(B1, 1, [u64; 6], [u64; 4], false);
+objty!(B2, 2, [u64; 7], [u64; 4], false);
+objty!(B3, 3, [u64; 8], [u64; 5], false);
+objty!(B4, 4, [u64; 9], [u64; 4], false);
+objty!(B5, 5, [u64; 6], [u64; 6], false);
+objty!(B6, 6, [u64; 10], [u64; 4], false);
+objty!(B7, 7, [u64; 6], [u64; 7], false);
+objty!(B8, 8, [u64; 11], [u64; 8], false);
+
+/// `by_type!(t, bad, f(args))` calls `f::<X>(args)` for the Rust type of model type `t`.
+macro_rules! by_type {
+    ($t:expr, $bad:expr, $f:ident ( $($a:expr),* )) => {
+        match ($t, $bad) {
+            (1, false) => $f::<G1>($($a),*),
+            (2, false) => $f::<G2>($($a),*),
+            (3, false) => $f::<G3>($($a),*),
+            (4, false) => $f::<G4>($($a),*),
+            (5, false) => $f::<G5>($($a),*),
+            (6, false) => $f::<G6>($($a),*),
+            (7, false) => $f::<G7>($($a),*),
+            (8, false) => $f::<G8>($($a),*),
+            (1, true) => $f::<B1>($($a),*),
+            (2, true) => $f::<B2>($($a),*),
+            (3, true) => $f::<B3>($($a),*),
+            (4, true) => $f::<B4>($($a),*),
+            (5, true) => $f::<B5>($($a),*),
+            (6, true) => $f::<B6>($($a),*),
+            (7, true) => $f::<B7>($($a),*),
+            (8, true) => $f::<B8>($($a),*),
+            _ => panic!("HARNESS: no such type"),
+        }
+    };
+}
+
+// ---------------------------------------------------------------- type-erased helpers
+
+pub trait TypedGuard {
+    fn res(&self) -> &dyn Resource;
+    fn res_mut(&mut self) -> Option<&mut dyn Resource>;
+    fn addr(&self) -> usize;
+    fn val(&self) -> u32;
+}
+impl<T: Obj + Resource> TypedGuard for Fetch<'static, T> {
+    fn res(&self) -> &dyn Resource {
+        let r: &T = self;
+        r
+    }
+    fn res_mut(&mut self) -> Option<&mut dyn Resource> {
+        None
+    }
+    fn addr(&self) -> usize {
+        let r: &T = self;
+        r as *const T as usize
+    }
+    fn val(&self) -> u32 {
+        Obj::val(&**self)
+    }
+}
+impl<T: Obj + Resource> TypedGuard for FetchMut<'static, T> {
+    fn res(&self) -> &dyn Resource {
+        let r: &T = self;
+        r
+    }
+    fn res_mut(&mut self) -> Option<&mut dyn Resource> {
+        let r: &mut T = self;
+        Some(r)
+    }
+    fn addr(&self) -> usize {
+        let r: &T = self;
+        r as *const T as usize
+    }
+    fn val(&self) -> u32 {
+        Obj::val(&**self)
+    }
+}
+
+pub trait LooseObj {
+    fn res(&self) -> &dyn Resource;
+    fn res_mut(&mut self) -> &mut dyn Resource;
+    fn addr(&self) -> usize;
+    fn val(&self) -> u32;
+}
+impl<T: Obj + Resource> LooseObj for T {
+    fn res(&self) -> &dyn Resource {
+        self
+    }
+    fn res_mut(&mut self) -> &mut dyn Resource {
+        self
+    }
+    fn addr(&self) -> usize {
+        self as *const T as usize
+    }
+    fn val(&self) -> u32 {
+        Obj::val(self)
+    }
+}
+
+fn rid<T: Resource>(d: u64) -> ResourceId {
+    ResourceId::new_with_dynamic_id::<T>(d)
+}
+fn do_insert<T: Mk>(w: &mut World, d: u64, v: u32) -> usize {
+    w.insert_by_id(rid::<T>(d), T::mk(v));
+    let g = w.try_fetch_by_id::<T>(rid::<T>(d)).expect("HARNESS: just inserted");
+    Obj::addr(&*g)
+}
+fn do_remove<T: Mk>(w: &mut World, d: u64) -> bool {
+    w.remove_by_id::<T>(rid::<T>(d)).is_some()
+}
+fn do_fetch<T: Mk>(w: &'static World, d: u64, write: bool) -> Option<Box<dyn TypedGuard>> {
+    if write {
+        w.try_fetch_mut_by_id::<T>(rid::<T>(d)).map(|g| Box::new(g) as Box<dyn TypedGuard>)
+    } else {
+        w.try_fetch_by_id::<T>(rid::<T>(d)).map(|g| Box::new(g) as Box<dyn TypedGuard>)
+    }
+}
+fn do_register<T: Mk>(t: &mut MetaTable<dyn Obj>)
+where
+    dyn Obj: CastFrom<T>,
+{
+    t.register::<T>();
+}
+fn do_loose<T: Mk>(v: u32) -> Box<dyn LooseObj> {
+    Box::new(T::mk(v))
+}
+
+fn panic_kind(p: Box<dyn std::any::Any + Send>) -> &'static str {
+    let s = if let Some(s) = p.downcast_ref::<&str>() {
+        s.to_string()
+    } else if let Some(s) = p.downcast_ref::<String>() {
+        s.clone()
+    } else {
+        String::new()
+    };
+    if s.contains("CastFrom") {
+        "panic_cast"
+    } else if s.contains("borrowed") {
+        "panic_borrow"
+    } else {
+        "panic_other"
+    }
+}
+
+enum Guard {
+    Typed(Box<dyn TypedGuard>),
+    ItemR(AtomicRef<'static, dyn Obj>),
+    ItemW(AtomicRefMut<'static, dyn Obj>),
+}
+enum Iter {
+    R(MetaIter<'static, dyn Obj>),
+    W(MetaIterMut<'static, dyn Obj>),
+}
+
+/// One world + one meta table + the live guards / iterators of one history.
+pub struct Machine {
+    world: *mut World,
+    table: *mut MetaTable<dyn Obj>,
+    guards: BTreeMap<u64, Guard>,
+    iters: BTreeMap<u64, Iter>,
+    loose: Vec<Box<dyn LooseObj>>,
+    addrs: HashMap<usize, u64>,
+    gmeta: HashMap<u64, (usize, u64, bool)>,
+    cells: HashMap<(usize, u64), u64>,
+    pub nt: usize,
+    pub bad: Vec<bool>, // index t (1-based; [0] unused)
+    pub max_g: usize,
+    pub max_i: usize,
+}
+
+impl Drop for Machine {
+    fn drop(&mut self) {
+        self.guards.clear();
+        self.iters.clear();
+        // SAFETY: nothing borrows them any more
+        unsafe {
+            drop(Box::from_raw(self.table));
+            drop(Box::from_raw(self.world));
+        }
+    }
+}
+
+impl Machine {
+    /// Returns the machine and its `reset` event.
+    pub fn new(nt: usize, bad_types: &[usize], seed_val: u32, max_g: usize, max_i: usize, extra: Value) -> (Self, Value) {
+        assert!(nt <= MAXT);
+        let mut bad = vec![false; nt + 1];
+        for b in bad_types {
+            bad[*b] = true;
+        }
+        let mut m = Machine {
+            world: Box::into_raw(Box::new(World::empty())),
+            table: Box::into_raw(Box::new(MetaTable::<dyn Obj>::new())),
+            guards: BTreeMap::new(),
+            iters: BTreeMap::new(),
+            loose: Vec::new(),
+            addrs: HashMap::new(),
+            gmeta: HashMap::new(),
+            cells: HashMap::new(),
+            nt,
+            bad,
+            max_g,
+            max_i,
+        };
+        let mut la = Vec::new();
+        let mut lv = Vec::new();
+        for t in 1..=nt {
+            let v = (seed_val + 17 * t as u32) % MODV;
+            let b = m.bad[t];
+            let o = by_type!(t, b, do_loose(v));
+            la.push(m.aid(o.addr()));
+            lv.push(v);
+            m.loose.push(o);
+        }
+        let mut ev = json!({"ev":"reset","nt":nt,"bad":bad_types,"loose":la,"lv":lv});
+        if let (Some(o), Some(e)) = (ev.as_object_mut(), extra.as_object()) {
+            for (k, v) in e {
+                o.insert(k.clone(), v.clone());
+            }
+        }
+        (m, ev)
+    }
+
+    fn aid(&mut self, a: usize) -> u64 {
+        let n = self.addrs.len() as u64 + 1;
+        *self.addrs.entry(a).or_insert(n)
+    }
+    fn w(&self) -> &'static World {
+        // SAFETY: `&mut World` is only formed while no guard / iterator exists (asserted)
+        unsafe { &*self.world }
+    }
+    fn tab(&self) -> &'static MetaTable<dyn Obj> {
+        // SAFETY: `&mut MetaTable` is only formed while no iterator exists (asserted)
+        unsafe { &*self.table }
+    }
+    pub fn quiet(&self) -> bool {
+        self.guards.is_empty() && self.iters.is_empty()
+    }
+    pub fn n_guards(&self) -> usize {
+        self.guards.len()
+    }
+    pub fn n_iters(&self) -> usize {
+        self.iters.len()
+    }
+    pub fn guard_ids(&self) -> Vec<u64> {
+        self.guards.keys().copied().collect()
+    }
+    pub fn typed_guard_ids(&self, need_mut: bool) -> Vec<u64> {
+        self.guards
+            .iter()
+            .filter(|(_, g)| match g {
+                Guard::Typed(_) => true,
+                _ => false,
+            })
+            .filter(|(id, _)| !need_mut || self.gmeta.get(id).map(|m| m.2).unwrap_or(false))
+            .map(|(id, _)| *id)
+            .collect()
+    }
+    pub fn iter_ids(&self) -> Vec<u64> {
+        self.iters.keys().copied().collect()
+    }
+    pub fn present_cells(&self) -> Vec<(usize, u64)> {
+        let mut v: Vec<_> = self.cells.keys().copied().collect();
+        v.sort();
+        v
+    }
+    pub fn free_guard(&self) -> Option<u64> {
+        (1..=self.max_g as u64).find(|i| !self.guards.contains_key(i))
+    }
+    pub fn free_iter(&self) -> Option<u64> {
+        (1..=self.max_i as u64).find(|i| !self.iters.contains_key(i))
+    }
+
+    /// Borrow table as probed on the real cells: index 2(t-1)+d.
+    pub fn probe(&self) -> Vec<&'static str> {
+        let mut out = Vec::with_capacity(2 * self.nt);
+        for t in 1..=self.nt {
+            for d in 0..2u64 {
+                let b = self.bad[t];
+                let id = by_type!(t, b, rid(d));
+                // SAFETY: the Box is not replaced
+                let s = match unsafe { self.w().try_fetch_internal(id) } {
+                    None => "-",
+                    Some(c) => {
+                        if c.try_borrow_mut().is_ok() {
+                            "0"
+                        } else if c.try_borrow().is_ok() {
+                            "r"
+                        } else {
+                            "w"
+                        }
+                    }
+                };
+                out.push(s);
+            }
+        }
+        out
+    }
+
+    pub fn reg(&mut self, t: usize) -> Value {
+        assert!(self.iters.is_empty(), "HARNESS: register while an iterator is alive");
+        let b = self.bad[t];
+        // SAFETY: no iterator borrows the table
+        let tab = unsafe { &mut *self.table };
+        let r = catch_unwind(AssertUnwindSafe(|| by_type!(t, b, do_register(tab))));
+        json!({"ev":"reg","t":t,"out": if r.is_ok() {"ok"} else {"panic_other"},"b":self.probe()})
+    }
+
+    pub fn ins(&mut self, t: usize, d: u64, v: u32) -> Value {
+        assert!(self.quiet(), "HARNESS: world mutation while borrowed");
+        let b = self.bad[t];
+        // SAFETY: nothing borrows the world
+        let w = unsafe { &mut *self.world };
+        let a = by_type!(t, b, do_insert(w, d, v));
+        let a = self.aid(a);
+        self.cells.insert((t, d), a);
+        json!({"ev":"ins","t":t,"d":d,"a":a,"v":v,"b":self.probe()})
+    }
+
+    pub fn rem(&mut self, t: usize, d: u64) -> Value {
+        assert!(self.quiet(), "HARNESS: world mutation while borrowed");
+        let b = self.bad[t];
+        // SAFETY: nothing borrows the world
+        let w = unsafe { &mut *self.world };
+        let was = by_type!(t, b, do_remove(w, d));
+        self.cells.remove(&(t, d));
+        json!({"ev":"rem","t":t,"d":d,"out": if was {"some"} else {"none"},"b":self.probe()})
+    }
+
+    pub fn fetch(&mut self, t: usize, d: u64, k: &str, g: u64) -> Value {
+        let b = self.bad[t];
+        let w = self.w();
+        let write = k == "w";
+        let r = catch_unwind(AssertUnwindSafe(|| by_type!(t, b, do_fetch(w, d, write))));
+        match r {
+            Ok(Some(gd)) => {
+                let v = gd.val();
+                assert!(!self.guards.contains_key(&g), "HARNESS: guard id in use");
+                self.guards.insert(g, Guard::Typed(gd));
+                self.gmeta.insert(g, (t, d, write));
+                json!({"ev":"fetch","t":t,"d":d,"k":k,"g":g,"out":"ok","v":v,"b":self.probe()})
+            }
+            Ok(None) => json!({"ev":"fetch","t":t,"d":d,"k":k,"g":0,"out":"none","v":0,"b":self.probe()}),
+            Err(p) => json!({"ev":"fetch","t":t,"d":d,"k":k,"g":0,"out":panic_kind(p),"v":0,"b":self.probe()}),
+        }
+    }
+
+    pub fn drop_guard(&mut self, g: u64) -> Value {
+        self.guards.remove(&g).expect("HARNESS: no such guard");
+        self.gmeta.remove(&g);
+        json!({"ev":"drop","g":g,"b":self.probe()})
+    }
+
+    fn obs(&mut self, ev: &str, t: usize, d: u64, g: u64, ain: usize, r: std::thread::Result<Option<(u32, usize, u32)>>) -> Value {
+        let ain = self.aid(ain);
+        match r {
+            Ok(Some((tag, a, v))) => {
+                let aout = self.aid(a);
+                json!({"ev":ev,"t":t,"d":d,"g":g,"out":"some","tag":tag,"ain":ain,"aout":aout,"v":v,"b":self.probe()})
+            }
+            Ok(None) => json!({"ev":ev,"t":t,"d":d,"g":g,"out":"none","tag":0,"ain":ain,"aout":0,"v":0,"b":self.probe()}),
+            Err(p) => json!({"ev":ev,"t":t,"d":d,"g":g,"out":panic_kind(p),"tag":0,"ain":ain,"aout":0,"v":0,"b":self.probe()}),
+        }
+    }
+
+    /// `table.get(&*guard)` / `table.get_mut(&mut *guard)` on a typed guard.
+    pub fn get_via(&mut self, g: u64, mutable: bool) -> Value {
+        let (t, d, _) = *self.gmeta.get(&g).expect("HARNESS: no such typed guard");
+        let tab = self.tab();
+        let Some(Guard::Typed(gd)) = self.guards.get_mut(&g) else { panic!("HARNESS: not a typed guard") };
+        let ain = gd.addr();
+        let r = if mutable {
+            let res = gd.res_mut().expect("HARNESS: get_mut needs an exclusive guard");
+            catch_unwind(AssertUnwindSafe(|| {
+                tab.get_mut(res).map(|o| {
+                    let v = o.bump();
+                    (o.tag(), o.addr(), v)
+                })
+            }))
+        } else {
+            let res = gd.res();
+            catch_unwind(AssertUnwindSafe(|| tab.get(res).map(|o| (o.tag(), o.addr(), o.val()))))
+        };
+        self.obs(if mutable { "getmut" } else { "get" }, t, d, g, ain, r)
+    }
+
+    /// The same on the object of type `t` that lives outside the world.
+    pub fn get_loose(&mut self, t: usize, mutable: bool) -> Value {
+        let tab = self.tab();
+        let o = &mut self.loose[t - 1];
+        let ain = o.addr();
+        let r = if mutable {
+            let res = o.res_mut();
+            catch_unwind(AssertUnwindSafe(|| {
+                tab.get_mut(res).map(|o| {
+                    let v = o.bump();
+                    (o.tag(), o.addr(), v)
+                })
+            }))
+        } else {
+            let res = o.res();
+            catch_unwind(AssertUnwindSafe(|| tab.get(res).map(|o| (o.tag(), o.addr(), o.val()))))
+        };
+        self.obs(if mutable { "getmut" } else { "get" }, t, 2, 0, ain, r)
+    }
+
+    pub fn iter(&mut self, k: &str, h: u64) -> Value {
+        assert!(!self.iters.contains_key(&h), "HARNESS: iterator id in use");
+        let it = if k == "w" { Iter::W(self.tab().iter_mut(self.w())) } else { Iter::R(self.tab().iter(self.w())) };
+        self.iters.insert(h, it);
+        json!({"ev":"iter","k":k,"h":h,"b":self.probe()})
+    }
+
+    /// `next()`; a yielded item is kept alive as guard `g`.  An iterator whose
+    /// `next` panicked is dropped.
+    pub fn next(&mut self, h: u64, g: u64) -> Value {
+        let it = self.iters.get_mut(&h).expect("HARNESS: no such iterator");
+        let (k, r) = match it {
+            Iter::R(i) => (
+                "r",
+                catch_unwind(AssertUnwindSafe(|| {
+                    i.next().map(|item| {
+                        let o = (item.tag(), item.addr(), item.val());
+                        (o, Guard::ItemR(item))
+                    })
+                })),
+            ),
+            Iter::W(i) => (
+                "w",
+                catch_unwind(AssertUnwindSafe(|| {
+                    i.next().map(|mut item| {
+                        let v = item.bump();
+                        let o = (item.tag(), item.addr(), v);
+                        (o, Guard::ItemW(item))
+                    })
+                })),
+            ),
+        };
+        match r {
+            Ok(Some(((tag, a, v), guard))) => {
+                assert!(!self.guards.contains_key(&g), "HARNESS: guard id in use");
+                self.guards.insert(g, guard);
+                let aout = self.aid(a);
+                json!({"ev":"next","h":h,"k":k,"g":g,"out":"some","tag":tag,"aout":aout,"v":v,"b":self.probe()})
+            }
+            Ok(None) => json!({"ev":"next","h":h,"k":k,"g":0,"out":"none","tag":0,"aout":0,"v":0,"b":self.probe()}),
+            Err(p) => {
+                self.iters.remove(&h);
+                json!({"ev":"next","h":h,"k":k,"g":0,"out":panic_kind(p),"tag":0,"aout":0,"v":0,"b":self.probe()})
+            }
+        }
+    }
+
+    pub fn idrop(&mut self, h: u64) -> Value {
+        self.iters.remove(&h).expect("HARNESS: no such iterator");
+        json!({"ev":"idrop","h":h,"b":self.probe()})
+    }
+
+    /// Address id the harness recorded for the object in cell (t, d) (d = 2: the
+    /// loose object), for the spec -> impl comparison.
+    pub fn cell_addr(&mut self, t: usize, d: u64) -> Option<u64> {
+        if d == 2 {
+            let a = self.loose[t - 1].addr();
+            return Some(self.aid(a));
+        }
+        self.cells.get(&(t, d)).copied()
+    }
+}
